@@ -51,7 +51,10 @@ RULE = ("Five sub-checks. uniform_direct: level vector (d 1-3, levels 1-3, <=64 
         "(the library never rescales targets; all residuals are relative, i.e. scale free) and the features x = a + b*t with b "
         "in {1e-9,...,1e9} and offsets up to 3e5 (the library rescales them). One uniform_direct case in 20 and one train case "
         "in 16 has a component grid with more than 100 points (105-225; lmin=1,lmax=6 / lmin=lmax=4 / [7] / [4,3] / [3,3,2] ...), "
-        "and fixed cases of that kind with targets of size 1e-9 and 1e-12 run first on shard 0. Non-trivial = d>=2, an anisotropic "
+        "and fixed cases of that kind with targets of size 1e-9 and 1e-12 run first on shard 0. Sample count: one uniform_direct case "
+        "in 20 and one train case in 16 has MANY samples relative to the grid (seeded uniform points, 600-40000 samples, m*N*d "
+        "between 3e5 and 2e6, counts drawn freely or as multiples of 256 / powers of two; matrix I, or C on 1-D / isotropic grids "
+        "with <= 64 points; all lambdas), again with fixed cases first on shard 0. Non-trivial = d>=2, an anisotropic "
         "grid (level vector / node lists differ between dimensions), lambda>0 and matrix 'C' (for opticom: d>=2, >=3 "
         "component grids and >=2 options applied). Distinct = distinct case dict.")
 ASSUMPTIONS = [
@@ -972,7 +975,7 @@ def _many_samples(draw, d, lo, hi):
 MANY_DIRECT = [([4, 4], 600, 3000), ([3, 5], 650, 2000), ([5, 3], 650, 2000), ([6], 4200, 12000), ([7], 2100, 9000), ([3, 3], 2700, 12000),
                ([2, 2], 15000, 40000), ([3, 3, 2], 600, 4500), ([2, 2, 2], 3300, 12000), ([4, 3], 1300, 5000)]
 # (d, lmin, lmax, range of the data-set size): the training part is (1-pct)*0.85 of it
-MANY_TRAIN = [(2, 4, 4, 900, 3200), (2, 3, 5, 1000, 2000), (1, 6, 6, 6500, 16000), (1, 7, 7, 3200, 9000), (2, 3, 3, 4200, 12000),
+MANY_TRAIN = [(2, 4, 4, 900, 4500), (2, 3, 5, 1000, 2000), (1, 6, 6, 6500, 16000), (1, 7, 7, 3200, 14000), (2, 3, 3, 4200, 12000),
               (2, 1, 6, 2000, 4500), (3, 2, 4, 950, 2500), (1, 1, 6, 6500, 14000)]
 
 BIG_LEVELVECTORS = [[7], [4, 3], [3, 4], [3, 3, 2], [2, 3, 3], [4, 4], [5, 3]]      # 127, 105, 105, 147, 147, 225, 217 points
@@ -1290,9 +1293,9 @@ SUBS = [
     # grid of unchanged shape but different coordinates (about 2-4 % of the bulk cases)
     Sub("uniform_direct", uniform_direct_strategy, run_uniform_direct, dict(quick=960, thorough=8000),
         budget_s=dict(quick=20, thorough=130), fixed_cases=uniform_direct_fixed),
-    Sub("dimwise_direct", dimwise_direct_strategy, run_dimwise_direct, dict(quick=1600, thorough=16000),
+    Sub("dimwise_direct", dimwise_direct_strategy, run_dimwise_direct, dict(quick=1280, thorough=16000),
         budget_s=dict(quick=15, thorough=100), fixed_cases=dimwise_direct_fixed),
-    Sub("train", train_strategy, run_train, dict(quick=1280, thorough=12000),
+    Sub("train", train_strategy, run_train, dict(quick=1120, thorough=12000),
         budget_s=dict(quick=18, thorough=110), fixed_cases=train_fixed),
     Sub("train_sa", train_sa_strategy, run_train_sa, dict(quick=1600, thorough=10000),
         budget_s=dict(quick=30, thorough=140), fixed_cases=train_sa_fixed),
